@@ -698,6 +698,12 @@ func (m c06) Case(c *Ctx, r *RNG) {
 				if n > 0 && r.Chance(1, 3) {
 					parts = append(parts, parts[0]) // repeated ID
 				}
+				if n > 0 && r.Chance(1, 5) {
+					// one element that is not an identifier of the target type, NOT in the last position
+					bad := r.Pick([]string{ident("wrong-type"), "5", "null", `"x"`, `{"id":"zz"}`, `[]`, ident("")})
+					at := r.Intn(len(parts))
+					parts = append(parts[:at], append([]string{bad}, parts[at:]...)...)
+				}
 				p.Rels[rl.Name] = "[" + strings.Join(parts, ",") + "]"
 			}
 		}
